@@ -124,6 +124,13 @@ class CrudProfile(StoreProfile):
                           "data": {"k%d" % j: j, "comment": "w%d" % j}})
             q.append({"op": "restart"})
         if i == 1 and not q and rng.random() < 0.06:
+            # a dictionary value replaced by a smaller dictionary (later values REPLACE earlier ones, they are not merged)
+            cfg0 = m.default_config
+            q += [{"op": "create", "cfg": cfg0, "sid": alpha["F1"], "data": {"meta": {"a": 1, "b": [1, 2], "c": {"d": 1}}}},
+                  {"op": "write", "cfg": cfg0, "sid": alpha["F1"], "how": rng.choice(["set", "update"]), "data": {"meta": {"a": 2}}},
+                  {"op": "write", "cfg": cfg0, "sid": alpha["F1"], "how": "set", "data": {"meta": {"c": {}}, "tags": {"x": 1}}},
+                  {"op": "write", "cfg": cfg0, "sid": alpha["F1"], "how": rng.choice(["set", "update"]), "data": {"tags": {"y": 2}}}]
+        if i == 1 and not q and rng.random() < 0.06:
             # a write whose serialised sidecar lands exactly on / next to a block boundary
             cfg0 = m.default_config
             q += [{"op": "create", "cfg": cfg0, "sid": alpha["F1"], "data": None}] + self.boundary_episode(run, cfg0, alpha["F1"])
